@@ -94,6 +94,7 @@ impl Outcome {
     pub fn short(&self) -> String {
         match self {
             Outcome::Accepted(b) => format!("accepted ({} bytes of Lua)", b.len()),
+            Outcome::Rejected { errors, .. } if errors.is_empty() => "rejected: 0 error(s)".to_string(),
             Outcome::Rejected { errors, .. } => {
                 let e = &errors[0];
                 format!(
